@@ -228,10 +228,12 @@ pub fn run(modelrun: &str) {
         let gen_id = verif_sync::next_id();
         // `gen0=<n>`: a generator that has already issued n ids (built through its Deserialize impl)
         let gen0: u64 = flags.split(',').find_map(|x| x.strip_prefix("gen0=")).and_then(|x| x.parse().ok()).unwrap_or(0);
+        // `ns=<uuid>`: namespace of the generator (default: the fixed test namespace)
+        let ns: String = flags.split(',').find_map(|x| x.strip_prefix("ns=")).unwrap_or(crate::level::NS_MAIN).to_string();
         let generator: Arc<UuidGenerator> = if gen0 == 0 {
-            Arc::new(UuidGenerator::new(Uuid::parse_str(crate::level::NS_MAIN).unwrap()))
+            Arc::new(UuidGenerator::new(Uuid::parse_str(&ns).unwrap()))
         } else {
-            Arc::new(serde_json::from_str(&format!("{{\"namespace\":\"{}\",\"counter\":{gen0}}}", crate::level::NS_MAIN)).unwrap())
+            Arc::new(serde_json::from_str(&format!("{{\"namespace\":\"{ns}\",\"counter\":{gen0}}}")).unwrap())
         };
         model.call(&format!("NEW {price} {mode}"));
         if gen0 != 0 {
